@@ -1012,16 +1012,58 @@ func runC24(c *Ctx) {
 	}
 	// refusal returns: non-nil error built by fmt.Errorf that is not the result of a mutator failing
 	nref := 0
-	for _, r := range mg.Returns() {
+	gtr, partial := false, false
+	// migrate's own returns and those of literals nested in it (the unversioned branch
+	// moved into a helper is an invoked literal after normalisation): a refusal is a return
+	// whose error is built on the spot
+	var allReturns []*ast.ReturnStmt
+	ast.Inspect(mg.Body, func(n ast.Node) bool {
+		if r, ok := n.(*ast.ReturnStmt); ok {
+			allReturns = append(allReturns, r)
+		}
+		return true
+	})
+	for _, r := range allReturns {
+		rg := mg.enclosing(r)
 		fs := mg.FactsAt(r)
-		if len(r.Results) != 1 || isNilIdent(mg.Info, r.Results[0]) {
+		if len(r.Results) == 0 {
 			continue
+		}
+		last := r.Results[len(r.Results)-1]
+		if t := typeOf(rg.Info, last); t == nil || !isErrorType(t) || isNilIdent(rg.Info, last) {
+			continue
+		}
+		if rg != mg {
+			// inside a literal: only errors constructed here are refusals of their own
+			if call, ok := ast.Unparen(last).(*ast.CallExpr); !ok || !rg.IsCall(call, "fmt.Errorf", "errors.New") {
+				continue
+			}
 		}
 		afterMutFail := fs.CallFail(mutators...)
 		if afterMutFail {
 			continue
 		}
 		nref++
+		if fs.Cmp(func(e, tag ast.Expr, truth bool, fa *Fact) bool {
+			be, ok := ast.Unparen(e).(*ast.BinaryExpr)
+			if !ok || tag != nil {
+				return false
+			}
+			x, y := rg.Prov(be.X), rg.Prov(be.Y)
+			isUV := func(p string) bool { return strings.Contains(p, "getUserVersion()#0") }
+			switch {
+			case isUV(x) && !isUV(y):
+				return be.Op == token.GTR && truth || be.Op == token.LEQ && !truth
+			case isUV(y) && !isUV(x):
+				return be.Op == token.LSS && truth || be.Op == token.GEQ && !truth
+			}
+			return false
+		}) {
+			gtr = true
+		}
+		if fs.Has(func(fa *Fact) bool { return fa.Kind == FTrue && rg.IsCall(fa.Call, "kv/sqlite3.schemaHasAnyV1Objects") }) {
+			partial = true
+		}
 		// unreachable after any mutator
 		reachable := false
 		for _, b := range mg.CFG().Blocks {
@@ -1029,39 +1071,18 @@ func runC24(c *Ctx) {
 				if isMut(n) {
 					reached, _ := mg.Reach(n, nil, nil)
 					for _, m := range reached {
-						if m == ast.Node(r) {
+						if m == ast.Node(r) || rg != mg && containsNode(m, r) {
 							reachable = true
 						}
 					}
 				}
 			}
 		}
-		c.Ob("refuse-before-touch", "migrate#refusal:"+strings.SplitN(mg.Str(r.Results[0]), "(", 2)[0]+"@"+firstString(mg, r), r.Pos(), !reachable, "a refusal (newer version, partial schema, inspection error) is returned before anything could have been written")
+		c.Ob("refuse-before-touch", "migrate#refusal:"+strings.SplitN(mg.Str(last), "(", 2)[0]+"@"+firstString(mg, r), r.Pos(), !reachable, "a refusal (newer version, partial schema, inspection error) is returned before anything could have been written")
 	}
 	c.Floor("migrate refusal returns", nref, 5)
-	// the refusals exist: newer-version and partial-schema
-	hasNewer := mg.Calls(false, func(*ast.CallExpr) bool { return false }) == nil
-	_ = hasNewer
-	gtr, partial := false, false
-	ast.Inspect(mg.Body, func(n ast.Node) bool {
-		ifs, ok := n.(*ast.IfStmt)
-		if !ok {
-			return true
-		}
-		returnsErr := false
-		for _, st := range ifs.Body.List {
-			if r, ok := st.(*ast.ReturnStmt); ok && len(r.Results) == 1 && !isNilIdent(mg.Info, r.Results[0]) {
-				returnsErr = true
-			}
-		}
-		if be, ok := ifs.Cond.(*ast.BinaryExpr); ok && be.Op == token.GTR && returnsErr && strings.Contains(mg.Prov(be.X), "getUserVersion()#0") {
-			gtr = true
-		}
-		if id, ok := ifs.Cond.(*ast.Ident); ok && returnsErr && strings.Contains(mg.Prov(id), "schemaHasAnyV1Objects()") {
-			partial = true
-		}
-		return true
-	})
+	// the refusals exist: newer-version and partial-schema (found above, from the path facts at
+	// the refusal returns)
 	c.Ob("refuse-before-touch", "migrate#refuses-newer-version", mg.Decl.Pos(), gtr, "a database with a newer user_version is refused")
 	c.Ob("refuse-before-touch", "migrate#refuses-partial-schema", mg.Decl.Pos(), partial, "an unversioned database that has only part of the v1 objects is refused")
 	// legacy branch only sets user_version
@@ -1106,7 +1127,14 @@ func runC24(c *Ctx) {
 					if !ok || rs.Value == nil || fn.varOf(rs.Value) != id {
 						return true
 					}
-					if cl, ok := rs.X.(*ast.CompositeLit); ok {
+					// a literal list, or a package-level list with a literal initialiser
+					cl, _ := ast.Unparen(rs.X).(*ast.CompositeLit)
+					if cl == nil {
+						if gv, ok := fn.ObjOf(rs.X).(*types.Var); ok && gv.Pkg() != nil && gv.Parent() == gv.Pkg().Scope() {
+							cl = globalInit(c, gv)
+						}
+					}
+					if cl != nil {
 						for _, el := range cl.Elts {
 							if v, ok := fn.ConstVal(el); ok {
 								probed[strings.Trim(v, "\"")] = kind
@@ -1120,6 +1148,116 @@ func runC24(c *Ctx) {
 		for name, kind := range objs {
 			c.Ob("refuse-before-touch", probe+"#probes-"+kind+":"+name, fn.Decl.Pos(), probed[name] == kind, "the schema probe checks every object migration 0001 creates; a database lacking an unprobed object would be stamped as current and never completed (or a partial one not recognised)")
 		}
+	}
+	// What the probes answer, for every state of the database as far as they can see it: the
+	// probes observe the schema only through tableExists / indexExists (checked: no other
+	// call takes the handle), so a state is the subset of migration 0001's objects that
+	// exist - 2^n states. Each probe is executed on the evaluator in every state:
+	// schemaLooksLikeV1 must answer true exactly when ALL objects exist (anything less is
+	// not a complete legacy database and must not be stamped), schemaHasAnyV1Objects exactly
+	// when at least one does. Counting, early returns and shared helpers are alike.
+	var objNames []string
+	for n := range objs {
+		objNames = append(objNames, n)
+	}
+	sort.Strings(objNames)
+	for _, probe := range []string{"schemaLooksLikeV1", "schemaHasAnyV1Objects"} {
+		fn := c.Func("kv/sqlite3", "", probe)
+		// only the two existence helpers receive the handle
+		onlyProbes := true
+		var visit func(g *Fn, depth int)
+		seenFn := map[*Fn]bool{}
+		visit = func(g *Fn, depth int) {
+			if seenFn[g] || depth > 3 {
+				return
+			}
+			seenFn[g] = true
+			for _, call := range g.Calls(true, func(*ast.CallExpr) bool { return true }) {
+				gg := g.enclosing(call)
+				if gg.IsCall(call, "kv/sqlite3.tableExists", "kv/sqlite3.indexExists") {
+					continue
+				}
+				takesDB := false
+				for _, a := range call.Args {
+					if strings.HasSuffix(typeStr(gg, a), "sql.DB") {
+						takesDB = true
+					}
+				}
+				if se, ok := ast.Unparen(call.Fun).(*ast.SelectorExpr); ok && strings.HasSuffix(typeStr(gg, se.X), "sql.DB") {
+					takesDB = true
+				}
+				if !takesDB {
+					continue
+				}
+				if h := c.FnOfObj(gg.Callee(call)); h != nil {
+					visit(h, depth+1)
+				} else {
+					onlyProbes = false
+				}
+			}
+		}
+		visit(fn, 0)
+		c.Ob("refuse-before-touch", probe+"#observes-only-existence", fn.Decl.Pos(), onlyProbes, "the probe looks at the database only through tableExists / indexExists")
+		nstates, bad := 0, ""
+		undec := ""
+		for mask := 0; mask < 1<<len(objNames) && undec == ""; mask++ {
+			exists := map[string]bool{}
+			cnt := 0
+			for i, n := range objNames {
+				if mask&(1<<i) != 0 {
+					exists[n] = true
+					cnt++
+				}
+			}
+			ext := func(f *Fn, call *ast.CallExpr, recv Val, args []Val) (Val, bool) {
+				kind := ""
+				switch {
+				case f.IsCall(call, "kv/sqlite3.tableExists"):
+					kind = "table"
+				case f.IsCall(call, "kv/sqlite3.indexExists"):
+					kind = "index"
+				default:
+					return nil, false
+				}
+				name, _ := args[1].(string)
+				return tupleVal{exists[name] && objs[name] == kind, nilVal{}}, true
+			}
+			res, _, err := fn.EvalFnWith([]Val{objVal{id: big.NewInt(1)}}, ext, nil, nil)
+			if err != nil || len(res) != 2 {
+				undec = fmt.Sprintf("%v", err)
+				break
+			}
+			got, isBool := res[0].(bool)
+			if _, isNil := res[1].(nilVal); !isBool || !isNil {
+				undec = "result is not (bool, nil)"
+				break
+			}
+			want := cnt == len(objNames)
+			if probe == "schemaHasAnyV1Objects" {
+				want = cnt > 0
+			}
+			nstates++
+			if got != want && bad == "" {
+				var have []string
+				for _, n := range objNames {
+					if exists[n] {
+						have = append(have, n)
+					}
+				}
+				bad = fmt.Sprintf("with exactly %v present it answers %v", have, got)
+			}
+		}
+		if undec != "" {
+			// outside the evaluable subset: not decided, and never a silent pass
+			c.Ob("refuse-before-touch", probe+"#answer-table", fn.Decl.Pos(), false, fmt.Sprintf("%s could not be executed on the evaluator (%s): its answer table is undecided", probe, undec))
+			continue
+		}
+		what := "true exactly when every object of migration 0001 exists"
+		if probe == "schemaHasAnyV1Objects" {
+			what = "true exactly when at least one object of migration 0001 exists"
+		}
+		c.Ob("refuse-before-touch", probe+"#answer-table", fn.Decl.Pos(), bad == "", fmt.Sprintf("%s answers %s, in all %d existence states; %s", probe, what, nstates, bad))
+		c.Extra("schema_probe_states_"+probe, nstates)
 	}
 
 	// applyMigration tx
